@@ -101,9 +101,90 @@ def run_forked(fn, arg, timeout_s=60.0):
     return val
 
 
+def _read_exact(fd, n, deadline=None):
+    chunks = []
+    while n > 0:
+        if deadline is not None:
+            left = deadline - time.monotonic()
+            if left <= 0:
+                raise HarnessError('zygote did not answer in time')
+            rl, _, _ = select.select([fd], [], [], left)
+            if not rl:
+                continue
+        b = os.read(fd, n)
+        if not b:
+            return None
+        chunks.append(b)
+        n -= len(b)
+    return b''.join(chunks)
+
+
+class Zygote(object):
+    """A long-lived pre-initialised copy of this process (check.zygote_init() has run in it,
+    e.g. lazily built grammars are warm) that forks one throw-away grandchild per run.  Every
+    run routed through it starts from the identical post-init state."""
+
+    def __init__(self, check):
+        self.check = check
+        c2z_r, c2z_w = os.pipe()
+        z2c_r, z2c_w = os.pipe()
+        pid = os.fork()
+        if pid == 0:
+            try:
+                os.close(c2z_w)
+                os.close(z2c_r)
+                check.zygote_init()
+                while True:
+                    hdr = _read_exact(c2z_r, 4)
+                    if not hdr:
+                        break
+                    case = pickle.loads(_read_exact(c2z_r, int.from_bytes(hdr, 'big')))
+                    try:
+                        out = ('ok', run_forked(check.execute, case, getattr(check, 'run_timeout_s', 60.0)))
+                    except HarnessError as e:
+                        out = ('herr', str(e))
+                    data = pickle.dumps(out)
+                    _write_all(z2c_w, len(data).to_bytes(4, 'big') + data)
+            except BaseException:
+                traceback.print_exc()
+            finally:
+                os._exit(0)
+        os.close(c2z_r)
+        os.close(z2c_w)
+        self.pid, self.w, self.r = pid, c2z_w, z2c_r
+
+    def run(self, case):
+        data = pickle.dumps(case)
+        _write_all(self.w, len(data).to_bytes(4, 'big') + data)
+        deadline = time.monotonic() + getattr(self.check, 'run_timeout_s', 60.0) + 30.0
+        hdr = _read_exact(self.r, 4, deadline)
+        if not hdr:
+            raise HarnessError('zygote died')
+        kind, val = pickle.loads(_read_exact(self.r, int.from_bytes(hdr, 'big'), deadline))
+        if kind == 'herr':
+            raise HarnessError(val)
+        return val
+
+    def close(self):
+        try:
+            os.close(self.w)
+            os.close(self.r)
+            os.waitpid(self.pid, 0)
+        except OSError:
+            pass
+
+
+_ZYGOTE = {}
+
+
 def isolated(check, case, timeout_s=None):
     t = timeout_s or getattr(check, 'run_timeout_s', 60.0)
     if check.isolation == 'fork':
+        if hasattr(check, 'zygote_init') and check.wants_zygote(case):
+            z = _ZYGOTE.get(os.getpid())
+            if z is None:
+                z = _ZYGOTE[os.getpid()] = Zygote(check)
+            return z.run(case)
         return run_forked(check.execute, case, t)
     return check.execute(case)
 
@@ -448,6 +529,17 @@ def main(check, argv):
         witnesses = by_clause[clause][:4]
         for (i, case, v) in witnesses:
             log = {}
+            if hasattr(check, 'prepare_shrink'):
+                # e.g. turn a strategy+seed schedule into its explicit decision list
+                try:
+                    c2 = check.prepare_shrink(case, v)
+                    r2 = isolated(check, c2)
+                    if r2.get('viol') and r2['viol'].get('clause') == clause:
+                        case = c2
+                    else:
+                        log['prepare_shrink'] = 'explicit form did not reproduce; shrinking the seeded form'
+                except HarnessError as e:
+                    log['prepare_shrink'] = 'harness error: %s' % e
             small = shrink(check, case, clause, budget_s=sb, log=log)
             try:
                 res = isolated(check, small)
